@@ -994,3 +994,218 @@ Example C01_counter_run :
   | _ => False
   end.
 Proof. split; [exact Closures5.counter_run|split; [exact Closures5.counter1_run|exact Closures5.counter3_run]]. Qed.
+
+(* ====================================================================================== fragment 6 *)
+(* Fragment 6 = fragment 4 + `set!` ON LOCAL VARIABLES, captured or not, against a reference
+   semantics with a STORE OF LOCATIONS (Proofs/Closures6.v, CompileStatic6.v, CompileCorrect6.v,
+   EvalFragment6.v).  [WSet x e] assigns the location of x when the scope binds x, the global x
+   otherwise.  [ref_eval6 bsem sc lv sg rho e r sg' rho']: the environment lv maps the names sc to
+   LOCATIONS (naturals), the store sg (a list, growing) maps locations to values; a variable reads
+   sg[lv[i]]; a local set! updates it; a lambda captures the LOCATIONS of its free variables
+   ([R6Clo ps cs bodies clocs]); a closure application allocates fresh locations for the
+   parameters at the end of the store.
+   Machine side: a location map mu (location -> heap address of the activation environment that
+   owns the variable, slot), growing at every ENTER of a closure; [store_rel mu sg m]: the slot
+   mu(l) holds a direct (non-pointer) representation of sg[l], and mu is injective on
+   (environment id, slot); a closure value is represented by pointer slots only ([vrep6]: the
+   captured slot i is the pointer mu(clocs[i])), so it survives assignments; [lrel6]: slot i of
+   the running activation is direct and IS mu(lv[i]), or holds the pointer mu(lv[i]).  The frame
+   condition "existing environment payloads unchanged" of fragments 2-4 ([rext], [frame2]) is
+   weakened to [wext] / [frame6]: lengths kept, pointer slots unchanged, direct slots stay direct. *)
+From MW Require Import Proofs.Closures6 Proofs.CompileStatic6 Proofs.CompileCorrect6 Proofs.EvalFragment6.
+
+(* the rules of the reference semantics that involve the store (constructors of ref_eval6) *)
+Theorem C01_ref_eval6_store_rules : forall (bsem : N -> list rval -> option rval),
+  (forall sc lv sg rho x i l r, pindex x sc = Some i -> nth_error lv (N.to_nat i) = Some l ->
+     nth_error sg l = Some r -> ref_eval6 bsem sc lv sg rho (WVar x) r sg rho) /\
+  (forall sc lv sg rho x e r sg1 rho1 i l, pindex x sc = Some i -> nth_error lv (N.to_nat i) = Some l ->
+     ref_eval6 bsem sc lv sg rho e r sg1 rho1 -> (l < length sg1)%nat ->
+     ref_eval6 bsem sc lv sg rho (WSet x e) (R6Base (RDatum CVoid)) (sset6 sg1 l r) rho1) /\
+  (forall sc lv sg rho ps fs bodies clocs,
+     Forall2 (fun x l => exists i, pindex x sc = Some i /\ nth_error lv (N.to_nat i) = Some l) (capnames6 sc fs) clocs ->
+     ref_eval6 bsem sc lv sg rho (WLam ps fs bodies) (R6Clo ps (capnames6 sc fs) bodies clocs) sg rho) /\
+  (forall sc lv sg rho f args rs sg1 rho1 ps cs bodies clocs sg2 rho2 vs pre r sg3 rho3,
+     ref_evals6 bsem sc lv sg rho args rs sg1 rho1 ->
+     ref_eval6 bsem sc lv sg1 rho1 f (R6Clo ps cs bodies clocs) sg2 rho2 ->
+     length rs = length ps ->
+     ref_evals6 bsem (ps ++ cs) (seq (length sg2) (length rs) ++ clocs) (sg2 ++ rs) rho2 bodies vs sg3 rho3 ->
+     vs = pre ++ [r] ->
+     ref_eval6 bsem sc lv sg rho (WApp f args) r sg3 rho3).
+Proof.
+  intros bsem. split; [exact (R6_local bsem)|]. split; [exact (R6_setl bsem)|].
+  split; [exact (R6_lam bsem)|exact (R6_app_closure bsem)].
+Qed.
+Print Assumptions C01_ref_eval6_store_rules.
+
+Theorem C01_fragment6_static : forall e sc, wf6 e sc ->
+  forall f l tail s, (cell_size (cell_of6 e) < f)%nat -> hdr6 l sc s -> minv s ->
+  exists l' s' code, compile_expression f l tail (cell_of6 e) s = ROk l' s' /\
+    fwd l' = fwd l ++ code /\ same_hdr l l' /\ minv s' /\ cext s s' /\ same_regs s s' /\
+    envs (st s') = envs (st s).
+Proof. exact fragment6_static. Qed.
+Print Assumptions C01_fragment6_static.
+
+Theorem C01_fragment6_correct :
+  forall (ob : N -> M vcell) (bsem : N -> list rval -> option rval),
+  (forall b, builtin_ok ob bsem b) -> (forall b, builtin_envs ob bsem b) ->
+  forall sc lv sg rho e r sg' rho', ref_eval6 bsem sc lv sg rho e r sg' rho' ->
+  forall f l tail s l' s' code, wf6 e sc -> (cell_size (cell_of6 e) < f)%nat -> hdr6 l sc s -> minv s ->
+    compile_expression f l tail (cell_of6 e) s = ROk l' s' -> fwd l' = fwd l ++ code ->
+    forall m mu lp bc,
+      cext s' m -> minv m -> code_in m lp bc -> seg bc (len (fwd l)) code -> ip m = (lp, len (fwd l)) ->
+      genv_rel6 mu rho m -> lrel6 mu lv m -> store_rel mu sg m -> (tail = true -> tframe m) ->
+      ok_n6 ob mu sg' m lp (len (fwd l) + len code) r rho' \/ (tail = true /\ ok_t6 ob mu sg' m r rho').
+Proof. exact fragment6_correct. Qed.
+Print Assumptions C01_fragment6_correct.
+
+Theorem C01_ok_n6_unfold : forall ob mu sg' m lp q r rho', ok_n6 ob mu sg' m lp q r rho' <->
+  exists n m' mu', RunProofs.steps ob n m = Some m' /\ (exists more, mu' = mu ++ more) /\ frame6 m m' /\ minv m' /\
+    ip m' = (lp, q) /\ vrep6 mu' m' (acc m') r /\ genv_rel6 mu' rho' m' /\ store_rel mu' sg' m'.
+Proof. exact ok_n6_unfold. Qed.
+Print Assumptions C01_ok_n6_unfold.
+Theorem C01_ok_t6_unfold : forall ob mu sg' m r rho', ok_t6 ob mu sg' m r rho' <->
+  exists n m' mu' k e i b, RunProofs.steps ob n m = Some m' /\ (exists more, mu' = mu ++ more) /\
+    frame_at m k e i b /\ wext m m' /\ minv m' /\
+    vrep6 mu' m' (acc m') r /\ genv_rel6 mu' rho' m' /\ store_rel mu' sg' m' /\
+    sp m' = bp m - k /\ ep m' = e /\ ip m' = i /\ bp m' = b /\ out_log m' = out_log m /\
+    (forall j, j <= bp m - k -> sget m' j = sget m j).
+Proof. exact ok_t6_unfold. Qed.
+Print Assumptions C01_ok_t6_unfold.
+Theorem C01_frame6_unfold : forall m m', frame6 m m' <-> frame m m' /\
+  forall e sl, e < next_id (st m) -> tget (envs (st m)) e = Some sl ->
+    exists sl', tget (envs (st m')) e = Some sl' /\ len sl' = len sl /\
+      (forall k a j, list_get sl k = Some (VLexPtr a j) -> list_get sl' k = Some (VLexPtr a j)) /\
+      (forall k w, list_get sl k = Some w -> (forall a j, w <> VLexPtr a j) ->
+         exists w', list_get sl' k = Some w' /\ (forall a j, w' <> VLexPtr a j)).
+Proof. exact frame6_unfold. Qed.
+Print Assumptions C01_frame6_unfold.
+Theorem C01_vrep6_closure_unfold : forall mu m v ps cs bodies clocs, vrep6 mu m v (R6Clo ps cs bodies clocs) <->
+  exists cp lamp cep ceid cslots, v = VPtr cp /\
+    allocated (hp m) cp /\ cell_at (hp m) cp = VClosure lamp cep /\
+    allocated (hp m) cep /\ cell_at (hp m) cep = VLexEnv ceid /\ ceid < next_id (st m) /\
+    tget (envs (st m)) ceid = Some cslots /\ len cslots = len ps + len cs /\
+    length clocs = length cs /\ closure_code6 m lamp ps cs bodies /\
+    all_idx6 (fun i l => exists a j, nth_error mu l = Some (a, j) /\ list_get cslots i = Some (VLexPtr a j))
+             clocs (len ps).
+Proof. exact vrep6_closure_unfold. Qed.
+Print Assumptions C01_vrep6_closure_unfold.
+Theorem C01_store_rel_unfold : forall mu sg m, store_rel mu sg m <->
+  length mu = length sg /\
+  (forall l a j r, nth_error mu l = Some (a, j) -> nth_error sg l = Some r ->
+     exists eid sl w, allocated (hp m) a /\ cell_at (hp m) a = VLexEnv eid /\ eid < next_id (st m) /\
+       tget (envs (st m)) eid = Some sl /\ list_get sl j = Some w /\ (forall a' j', w <> VLexPtr a' j') /\ vrep6 mu m w r) /\
+  (forall l1 l2 a1 a2 j eid, nth_error mu l1 = Some (a1, j) -> nth_error mu l2 = Some (a2, j) ->
+     cell_at (hp m) a1 = VLexEnv eid -> cell_at (hp m) a2 = VLexEnv eid -> l1 = l2).
+Proof. exact store_rel_unfold. Qed.
+Print Assumptions C01_store_rel_unfold.
+Theorem C01_lrel6_unfold : forall mu lv m, lrel6 mu lv m <->
+  forall i l, nth_error lv (N.to_nat i) = Some l ->
+  exists eid slots v a j, allocated (hp m) (ep m) /\ cell_at (hp m) (ep m) = VLexEnv eid /\
+    eid < next_id (st m) /\ tget (envs (st m)) eid = Some slots /\ list_get slots i = Some v /\
+    nth_error mu l = Some (a, j) /\
+    (((forall a' j', v <> VLexPtr a' j') /\ a = ep m /\ j = i) \/ v = VLexPtr a j).
+Proof. exact lrel6_unfold. Qed.
+Print Assumptions C01_lrel6_unfold.
+
+(* Vm::eval on a top-level expression of fragment 6, from any state whose globals and store are
+   represented (in particular the empty store with the empty location map) *)
+Theorem C01_eval_fragment6 :
+  forall (ob : N -> M vcell) (bsem : N -> list rval -> option rval),
+  (forall b, builtin_ok ob bsem b) -> (forall b, builtin_envs ob bsem b) ->
+  forall e mu sg rho r sg' rho' s,
+  wf6 e [] -> ref_eval6 bsem [] [] sg rho e r sg' rho' -> minv s -> genv_rel6 mu rho s -> store_rel mu sg s ->
+  transform_expr TRANSFORM_FUEL s (cell_of6 e) = Ok (cell_of6 e) ->
+  exists n m mu', (forall fuel, (n <= fuel)%nat -> eval ob fuel (cell_of6 e) s = halt_result m) /\
+    (exists more, mu' = mu ++ more) /\ vrep6 mu' m (acc m) r /\ genv_rel6 mu' rho' m /\ store_rel mu' sg' m /\
+    minv m /\ cext s m /\ sp m = sp s /\ bp m = bp s /\ ep m = ep s /\ out_log m = out_log s.
+Proof. exact eval_fragment6. Qed.
+Print Assumptions C01_eval_fragment6.
+
+Theorem C01_eval_fragment6_done :
+  forall (ob : N -> M vcell) (bsem : N -> list rval -> option rval),
+  (forall b, builtin_ok ob bsem b) -> (forall b, builtin_envs ob bsem b) ->
+  forall e mu sg rho b sg' rho' s,
+  wf6 e [] -> ref_eval6 bsem [] [] sg rho e (R6Base b) sg' rho' -> minv s -> genv_rel6 mu rho s -> store_rel mu sg s ->
+  transform_expr TRANSFORM_FUEL s (cell_of6 e) = Ok (cell_of6 e) ->
+  exists n m mu', (exists more, mu' = mu ++ more) /\
+    vrep (acc m) b (hp m) (st m) /\ genv_rel6 mu' rho' m /\ store_rel mu' sg' m /\ minv m /\ cext s m /\
+    sp m = sp s /\ bp m = bp s /\ ep m = ep s /\ out_log m = out_log s /\
+    (forall fuel, (n <= fuel)%nat -> eval ob fuel (cell_of6 e) s = halt_result m) /\
+    (halt_result m <> RNoFuel \/ (no_ptr_cells (hp m) /\ (rcost b <= cell_fuel m)%nat) ->
+     forall fuel, (n <= fuel)%nat ->
+       eval ob fuel (cell_of6 e) s = ROk (Done (rcell b)) (with_stack m tempty (sp m))).
+Proof. exact eval_fragment6_done. Qed.
+Print Assumptions C01_eval_fragment6_done.
+
+(* sessions compose: globals AND store stay represented in the state a Done evaluation returns *)
+Theorem C01_done_state_ok6 : forall mu sg rho m, minv m -> genv_rel6 mu rho m -> store_rel mu sg m ->
+  minv (with_stack m tempty (sp m)) /\ genv_rel6 mu rho (with_stack m tempty (sp m)) /\
+  store_rel mu sg (with_stack m tempty (sp m)).
+Proof. exact done_state_ok6. Qed.
+Print Assumptions C01_done_state_ok6.
+
+(* on the booted machine and every session state (R2) *)
+Theorem C01_eval_fragment6_session :
+  forall (ob : N -> M vcell) (bsem : N -> list rval -> option rval),
+  (forall b, builtin_ok ob bsem b) -> (forall b, builtin_envs ob bsem b) ->
+  forall e mu sg rho r sg' rho' s0 s,
+  booted = Some s0 -> FlatAll.evals s0 s ->
+  wf6 e [] -> ref_eval6 bsem [] [] sg rho e r sg' rho' -> genv_rel6 mu rho s -> store_rel mu sg s ->
+  transform_expr TRANSFORM_FUEL s (cell_of6 e) = Ok (cell_of6 e) ->
+  exists n m mu', (forall fuel, (n <= fuel)%nat -> eval ob fuel (cell_of6 e) s = halt_result m) /\
+    (exists more, mu' = mu ++ more) /\ vrep6 mu' m (acc m) r /\ genv_rel6 mu' rho' m /\ store_rel mu' sg' m /\
+    minv m /\ cext s m /\ sp m = sp s /\ bp m = bp s /\ ep m = ep s /\ out_log m = out_log s.
+Proof.
+  intros ob bsem Hb He e mu sg rho r sg' rho' s0 s B R Hwf HR G SR Ht.
+  exact (eval_fragment6 ob bsem Hb He e mu sg rho r sg' rho' s Hwf HR (BootMinv.session_minv s0 s B R) G SR Ht).
+Qed.
+Print Assumptions C01_eval_fragment6_session.
+
+(* non-vacuity (a): ((lambda (n) ((lambda (u) n) (set! n #t))) #f) — set! on a parameter the
+   running lambda owns (direct slot), in operand position, observed afterwards through a closure
+   that captured n (pointer slot): reference value #t, final store [#t; #<void>] ... *)
+Example C01_fragment6_example :
+  wf6 exa6 [] /\ minv (vm_empty 8192) /\ genv_rel6 [] rho6_empty (vm_empty 8192) /\ store_rel [] [] (vm_empty 8192) /\
+  ref_eval6 bsem_not [] [] [] rho6_empty exa6 (vB6 true) [vB6 true; vVoid6] rho6_empty.
+Proof. exact exa6_hypotheses. Qed.
+Example C01_fragment6_example_run :
+  transform_expr TRANSFORM_FUEL (vm_empty 8192) (cell_of6 exa6) = Ok (cell_of6 exa6) /\
+  match eval other_builtin 300 (cell_of6 exa6) (vm_empty 8192) with
+  | ROk (Done c) s' => c = CBool true /\ sp s' = 0 /\ bp s' = 0 /\ ep s' = USIZE_MAX
+  | _ => False
+  end.
+Proof. exact exa6_run. Qed.
+(* (b) THE COUNTER ((lambda (n) ((lambda (inc) (inc) (inc)) (lambda () (set! n (if n #f #t)) n))) #f)
+   is an expression of the fragment (counter6; its datum is what the reader produces for the text),
+   satisfies every hypothesis on the empty machine, and has the reference value #f with the final
+   store [#f; <the thunk, capturing location 0>]: every call of the thunk toggles location 0
+   through the pointer slot of its activation ... *)
+Example C01_counter6 :
+  match Parse.parse_text counter6_src with Ok (d, _) => d = cell_of6 counter6 | _ => False end /\
+  wf6 counter6 [] /\ minv (vm_empty 8192) /\ genv_rel6 [] rho6_empty (vm_empty 8192) /\ store_rel [] [] (vm_empty 8192) /\
+  ref_eval6 bsem_not [] [] [] rho6_empty counter6 (vB6 false) [vB6 false; thunk_val6] rho6_empty /\
+  ref_eval6 bsem_not [] [] [] rho6_empty counter6_1 (vB6 true) [vB6 true; thunk_val6] rho6_empty /\
+  ref_eval6 bsem_not [] [] [] rho6_empty counter6_3 (vB6 true) [vB6 true; thunk_val6] rho6_empty.
+Proof.
+  split; [exact counter6_parse|].
+  destruct counter6_hypotheses as (H1 & H2 & H3 & H4 & H5).
+  repeat (split; [assumption|]). split; [exact counter6_1_ref|exact counter6_3_ref].
+Qed.
+(* ... and the model answers #f (two calls), #t (one call), #t (three calls) *)
+Example C01_counter6_run :
+  (transform_expr TRANSFORM_FUEL (vm_empty 8192) (cell_of6 counter6) = Ok (cell_of6 counter6) /\
+   match eval other_builtin 300 (cell_of6 counter6) (vm_empty 8192) with
+   | ROk (Done c) s' => c = CBool false /\ sp s' = 0 /\ bp s' = 0 /\ ep s' = USIZE_MAX
+   | _ => False
+   end) /\
+  (transform_expr TRANSFORM_FUEL (vm_empty 8192) (cell_of6 counter6_1) = Ok (cell_of6 counter6_1) /\
+   match eval other_builtin 300 (cell_of6 counter6_1) (vm_empty 8192) with
+   | ROk (Done c) s' => c = CBool true /\ sp s' = 0 /\ bp s' = 0 /\ ep s' = USIZE_MAX
+   | _ => False
+   end) /\
+  (transform_expr TRANSFORM_FUEL (vm_empty 8192) (cell_of6 counter6_3) = Ok (cell_of6 counter6_3) /\
+   match eval other_builtin 300 (cell_of6 counter6_3) (vm_empty 8192) with
+   | ROk (Done c) s' => c = CBool true /\ sp s' = 0 /\ bp s' = 0 /\ ep s' = USIZE_MAX
+   | _ => False
+   end).
+Proof. split; [exact counter6_run|split; [exact counter6_1_run|exact counter6_3_run]]. Qed.
